@@ -32,7 +32,7 @@ def affine_mesh(rng, kind):
             return m, info
 
 
-def exact_matrices(m, e, ename, fpoly):
+def exact_matrices(m, e, ename, fpoly, cells=None):
     """exact global mass / stiffness / load (Fractions) for a Lagrange element on an affine mesh"""
     import skfem
     kind = exact.mesh_kind(m)
@@ -46,7 +46,7 @@ def exact_matrices(m, e, ename, fpoly):
     K = [[Fraction(0)] * N for _ in range(N)]
     b = [Fraction(0)] * N
     nref = tr["dim"]
-    for k in range(m.nelements):
+    for k in (range(m.nelements) if cells is None else cells):
         verts = exact.cell_vertices(m, k)
         F, _ = exact.ref_map(kind, verts)
         J = [[F[i].deriv(j) for j in range(nref)] for i in range(nref)]
@@ -150,6 +150,28 @@ def run(ctx):
                 ctx.violation("functional over a cell subset differs from the exact integral over that subdomain",
                               dict(descr, cells=sub, got=float(val), exact=qstr(ex)),
                               {"what": "functional-subdomain", "cls": kind})
+            # further subsets on the SAME mesh object (the mapping is cached on the mesh): same length, same first
+            # and last cell, different interior; and an unsorted, contiguous-looking ordering
+            if m.nelements >= 4:
+                for rep in range(2):
+                    srt = sorted(rng.sample(range(m.nelements), rng.randint(3, min(m.nelements, 6))))
+                    mid = [c for c in range(srt[0] + 1, srt[-1]) if c not in srt]
+                    alt = list(srt)
+                    if mid and len(srt) > 2:
+                        alt[rng.randrange(1, len(srt) - 1)] = rng.choice(mid)
+                    for sub2 in (srt, sorted(set(alt))):
+                        order2 = list(sub2)
+                        if rep == 1:
+                            rng.shuffle(order2)
+                        bs2 = Basis(m, e, intorder=order, elements=np.array(order2, dtype=np.int32))
+                        val = Functional(lambda w: f(w.x)).assemble(bs2)
+                        ex = exact.mesh_integral(m, p, sub2)
+                        if abs(val - float(ex)) > 1e-11 * max(1.0, abs(float(ex))):
+                            ctx.violation("functional over a cell subset differs from the exact integral (several "
+                                          "subsets on one mesh object)", dict(descr, cells=order2, got=float(val),
+                                                                             exact=qstr(ex)),
+                                          {"what": "functional-subdomain", "cls": kind})
+                ctx.count("subset-sequences-on-one-mesh")
             # dx bookkeeping vs the model (|det| * W) on affine cells
             if not general and kind != "wedge" and len(dxreqs) < 40:
                 dets = [qstr(abs(exact.det_poly(*exact.ref_map(kind, exact.cell_vertices(m, kk))).constant()))
@@ -243,6 +265,25 @@ def run(ctx):
             if not rel_close(bi, [float(v) for v in bx]):
                 ctx.violation("load vector of a Lagrange element differs from the exactly computed one", descr,
                               {"what": "load", "element": ename})
+            if m.nelements >= 3:
+                # the same on a cell subset given in arbitrary (unsorted, possibly contiguous-looking) order
+                a0 = rng.randrange(m.nelements - 1)
+                blk = list(range(a0, min(m.nelements, a0 + rng.randint(2, 5))))
+                sub = blk if rng.random() < 0.5 else rng.sample(range(m.nelements), rng.randint(1, m.nelements))
+                sub = list(sub)
+                if len(sub) > 2:
+                    mid = sub[1:-1]
+                    rng.shuffle(mid)
+                    sub = [sub[0]] + mid + [sub[-1]]
+                Ms, Ks, bs_ = exact_matrices(m, e, ename, fpoly, cells=sub)
+                bsub = Basis(m, e, elements=np.array(sub, dtype=np.int32))
+                Msi = BilinearForm(lambda u, v, w: u * v).assemble(bsub).toarray()
+                Ksi = BilinearForm(lambda u, v, w: sum(u.grad[a] * v.grad[a] for a in range(dim))).assemble(bsub).toarray()
+                if not rel_close(Msi, [[float(v) for v in row] for row in Ms]) or \
+                        not rel_close(Ksi, [[float(v) for v in row] for row in Ks]):
+                    ctx.violation("mass/stiffness matrix assembled on a cell subset differs from the exact one",
+                                  dict(descr, cells=sub), {"what": "subset-matrices", "element": ename})
+                ctx.count("lagrange-on-subset")
         except Exception as ex:
             ctx.violation("exact-matrix comparison raised " + exc_kind(ex), dict(descr, err=repr(ex)),
                           {"what": "raise-matrices", "element": ename})
